@@ -3,6 +3,6 @@
    (EffectsConfig.parse_render: Config::from_lsp_config + try_resolve); ExtrOcamlBasic only *)
 Require Extraction.
 Require Import ExtrOcamlBasic.
-Require Import Base EffectsBase Effects EffectsSave EffectsConfig.
+Require Import Base EffectsBase Effects EffectsSave EffectsConfig C10Cli.
 Extraction Language OCaml.
-Extraction "../ocaml/gen/c10_model.ml" run_judge mkcfg loopback_bytes file_dict_plan user_dict_plan parse_render.
+Extraction "../ocaml/gen/c10_model.ml" run_judge mkcfg loopback_bytes file_dict_plan user_dict_plan parse_render parse_monitor_filedir cli_lint_reads.
